@@ -580,6 +580,76 @@ def falsy_variants(obj, fname):
     return res
 
 
+# numbers at the edges of the number representations a writer / parser pair can pass a value through: a value that is
+# spelled differently by the writer than in the source (hexadecimal -> decimal, shortest float repr -> fixed precision),
+# detours through a double (exact only below 2**53), a 32 / 64 bit machine integer or a single-precision float comes back
+# altered only out there; all small values (which is what documents usually contain) survive
+WIDE_INTS = [(1 << 53) + 1,          # the first integer that is not a double
+             (1 << 64) - 1,          # 64 bits all ones (a double rounds it to 2**64; does not fit a signed 64 bit integer)
+             -((1 << 63) - 1),       # most negative 64 bit two's complement value + 1 (not a double either)
+             (1 << 32) + 1,          # does not fit 32 bits (the ODX type names say A_UINT32 / A_INT32; Python integers are unbounded)
+             -((1 << 31) + 1)]
+WIDE_FLOATS = [0.1 + 0.2,                   # 0.30000000000000004: needs all 17 significant digits
+               123456789.12345679,          # 17 digits, no exponent
+               -1.7976931348623157e308,     # largest magnitude
+               5e-324,                      # smallest subnormal
+               1e22,                        # repr uses an exponent with sign ("1e+22")
+               16777217.0]                  # 2**24 + 1: not a single-precision float
+
+
+def _wide_of(t):
+    if t is int:
+        return [("wide-int", v) for v in WIDE_INTS]
+    if t is float:
+        return [("wide-float", v) for v in WIDE_FLOATS]
+    return []
+
+
+def wide_variants(obj, fname):
+    """wide numbers for an integer / float valued field, or for the first item of a list of numbers (CODED-VALUES,
+    COMPU-NUMERATOR/V ...).  As in `falsy_variants` the value keeps the Python type the field (item) has now: the type is
+    fixed by the context (DIAG-CODED-TYPE of a CODED-VALUE, value type of the coefficients); a field that is absent now
+    gets the numeric members of its declared type"""
+    if (type(obj).__name__, fname) in MARKUP_FIELDS or fname in ("ref_docs", "doc_fragments"):
+        return []
+    cur = getattr(obj, fname)
+    if is_listlike(cur):
+        items = list(cur)
+        if not items or isinstance(items[0], bool) or type(items[0]) not in (int, float):
+            return []
+        if not all(isinstance(x, (int, float)) and not isinstance(x, bool) for x in items):
+            return []
+        return [(kind + "-item", type(cur)([v] + items[1:])) for kind, v in _wide_of(type(items[0])) if v != items[0]]
+    hint = hints_of(type(obj)).get(fname)
+    if hint is None:
+        return []
+    inner, opt = _unwrap(hint)
+    members = typing.get_args(inner) if typing.get_origin(inner) is typing.Union else (inner,)
+    if cur is not None:
+        members = [t for t in members if t is type(cur)]
+    out = []
+    for t in members:
+        out += [(kind, v) for kind, v in _wide_of(t) if not (type(cur) is type(v) and cur == v)]
+    return out
+
+
+def wide_sites(db):
+    """[(path, class, field, number kind)] — the fields below a database that take a wide number; kind = Python type of the
+    current value (`int`, `float`, `int-item`, `float-item`) or `absent`"""
+    out = []
+    for path, o in db_objects(db):
+        cls = type(o).__name__
+        for f in public_fields(o):
+            if (cls, f.name) in DERIVED_FIELDS or is_context(cls, f.name):
+                continue
+            if not wide_variants(o, f.name):
+                continue
+            cur = getattr(o, f.name)
+            kind = "absent" if cur is None else (type(list(cur)[0]).__name__ + "-item" if is_listlike(cur) else type(cur).__name__)
+            out.append((path, cls, f.name, kind))
+    return out
+
+
 def is_listlike(v):
     return isinstance(v, (list, tuple)) or type(v).__name__ == "NamedItemList"
 
@@ -668,6 +738,8 @@ def encode_value(kind, v):
         return {"kind": kind, "value": bytes(v).hex()}
     if is_dc(v):
         return {"kind": kind, "value": f"<{type(v).__name__} donor>"}
+    if isinstance(v, list) and kind.startswith("wide"):
+        return {"kind": kind, "value": [x if isinstance(x, (int, float)) else repr(x) for x in v[:8]]}
     if isinstance(v, list):
         return {"kind": kind, "value": f"<list of {len(v)}>"}
     return {"kind": kind, "value": repr(v)[:80]}
@@ -785,10 +857,10 @@ def typed_by_owner(db, path, obj, fname, vs):
 
 def apply_and_roundtrip(db, path, fname, k, pool, variant_index=None, base=frozenset(), family="default"):
     """(see _apply_and_roundtrip) + `tried_values`: every value that was written, for the families that go through all
-    their variants (falsy, order) — one evaluated case each"""
+    their variants (falsy, order, wide) — one evaluated case each"""
     hist = []
     r = _apply_and_roundtrip(db, path, fname, k, pool, variant_index, base, family, hist)
-    if family in ("falsy", "order"):
+    if family in ("falsy", "order", "wide"):
         r["tried_values"] = hist
     return r
 
@@ -802,7 +874,7 @@ def _apply_and_roundtrip(db, path, fname, k, pool, variant_index, base, family, 
                database is rejected by the parser for reasons of its own, e.g. type constraints)"""
     obj = resolve_path(db, path)
     old = getattr(obj, fname)
-    is_refdocs = fname == "ref_docs" and hasattr(obj, "ref_id") and family != "falsy"
+    is_refdocs = fname == "ref_docs" and hasattr(obj, "ref_id") and family not in ("falsy", "wide")
     if is_refdocs:
         v = foreign_fragment(obj)
         vs = [("docref", v)] if v else []
@@ -810,6 +882,8 @@ def _apply_and_roundtrip(db, path, fname, k, pool, variant_index, base, family, 
         vs = falsy_variants(obj, fname)
     elif family == "order":
         vs = order_variants(obj, fname)
+    elif family == "wide":
+        vs = wide_variants(obj, fname)
     else:
         vs = variants(obj, fname, k, pool)
         vs = typed_by_owner(db, path, obj, fname, vs)
@@ -843,7 +917,7 @@ def _apply_and_roundtrip(db, path, fname, k, pool, variant_index, base, family, 
                 if kind in DONOR_KINDS:
                     last["status"], last["why"] = "skipped", "donor-unsuitable:" + str(err)
                     continue
-                if kind.endswith("absent") or kind.endswith("present") or kind.startswith("meta") or kind.startswith("falsy") or kind.startswith("order") or kind in ("flip", "docref", "list-shorter"):
+                if kind.endswith("absent") or kind.endswith("present") or kind.startswith("meta") or kind.startswith("falsy") or kind.startswith("order") or kind.startswith("wide") or kind in ("flip", "docref", "list-shorter"):
                     return last
                 continue
             db2, err = load_pdx_bytes(pdx, refresh=False)
@@ -863,7 +937,7 @@ def _apply_and_roundtrip(db, path, fname, k, pool, variant_index, base, family, 
                 d = [x for x in diff(db_tree(db, mask=True), db_tree(db2, mask=True), limit=400)
                      if (x["path"], x["left"], x["right"]) not in (base if order_base is None else order_base)]
             res = {"status": "diff" if d else "same", "kind": kind, "diffs": d[:6], "tried": n + 1, "value": val, "variant": n}
-            if family in ("falsy", "order") and not d and n + 1 - base_index < len(vs):
+            if family in ("falsy", "order", "wide") and not d and n + 1 - base_index < len(vs):
                 last = res
                 continue
             return res
